@@ -2973,6 +2973,17 @@ where
         let mut stats = InsertionStatistics::default();
         let original_coords = *vertex.point().coords();
         let original_uuid = vertex.uuid();
+
+        // Non-finite coordinates must never enter the triangulation. Once cells exist the
+        // geometric predicates refuse them, but during the bootstrap phase (fewer than D+1
+        // vertices) no predicate runs, so check explicitly before anything is stored.
+        vertex.point().validate().map_err(|source| {
+            InsertionError::TopologyValidation(TdsValidationError::InvalidVertex {
+                vertex_id: original_uuid,
+                source: crate::core::vertex::VertexValidationError::InvalidPoint { source },
+            })
+        })?;
+
         let mut current_vertex = vertex;
         let mut last_retryable_error: Option<InsertionError> = None;
 
